@@ -225,6 +225,11 @@ func (it *indexedMessageIterator) loadChunk(chunkIndex *ChunkIndex) error {
 	}
 
 	compressedChunkLength := chunkIndex.ChunkLength
+	if compressedChunkLength < 9 || compressedChunkLength >= math.MaxInt32 ||
+		compressedChunkLength > uint64(it.fileSize)-chunkIndex.ChunkStartOffset {
+		return fmt.Errorf("%w: chunk length %d at offset %d, file size %d",
+			ErrBadOffset, compressedChunkLength, chunkIndex.ChunkStartOffset, it.fileSize)
+	}
 	if uint64(cap(it.recordBuf)) < compressedChunkLength {
 		newCapacity := int(float64(compressedChunkLength) * chunkBufferGrowthMultiple)
 		it.recordBuf = make([]byte, compressedChunkLength, newCapacity)
@@ -254,7 +259,10 @@ func (it *indexedMessageIterator) loadChunk(chunkIndex *ChunkIndex) error {
 	chunkSlot := &it.chunkSlots[chunkSlotIndex]
 	bufSize := parsedChunk.UncompressedSize
 	if uint64(cap(chunkSlot.buf)) < bufSize {
-		chunkSlot.buf = make([]byte, bufSize)
+		chunkSlot.buf, err = makeSafe(bufSize)
+		if err != nil {
+			return fmt.Errorf("failed to allocate chunk buffer: %w", err)
+		}
 	} else {
 		chunkSlot.buf = chunkSlot.buf[:bufSize]
 	}
